@@ -36,3 +36,44 @@ Proof.
   - destruct H as [H|[H|[]]]; inversion H; cbn; lia.
   - destruct n; cbn in H; contradiction.
 Qed.
+
+From Sebuf Require Import Json.
+(* ---- known finding mock-acyclic-path-blowup --------------------------------------------------- *)
+(* The path set makes the mock walk terminate (C16_mock_terminates) but not cheap: a message type
+   reached through two fields is filled twice, with everything below it.  On the acyclic layered
+   graph of width 2 and depth d (d+1 message types; theories/Traverse.v dag2) the walk — which
+   terminates, within the fuel of C16_mock_terminates — emits exactly 2^(d+1) - 2 message-field
+   assignments: "bounded" only by a bound exponential in the size of the request. *)
+Theorem C16_mock_acyclic_exponential : forall d, exists k,
+  mock_path (S (List.length (dag2 d))) (dag2 d) [] 0 = Some k /\ k + 2 = 2 ^ (S d).
+Proof. exact mock_path_dag2. Qed.
+Print Assumptions C16_mock_acyclic_exponential.
+
+Theorem C16_mock_acyclic_at_least_2_pow_depth : forall d k, 1 <= d ->
+  mock_path (S (List.length (dag2 d))) (dag2 d) [] 0 = Some k -> 2 ^ d <= k.
+Proof. exact mock_path_dag2_exponential. Qed.
+Print Assumptions C16_mock_acyclic_at_least_2_pow_depth.
+
+(* ... whereas the visited-set walk of the other plugins touches each of the d+1 messages once *)
+Example C16_guarded_linear_on_dag : collect 42 (dag2 40) [] 0 = Some (rev (seq 0 41)).
+Proof. vm_compute. reflexivity. Qed.
+
+(* the step-budgeted evaluation used by the correspondence check agrees with the walk below the
+   budget and reports an overrun above it *)
+Theorem C16_mock_cost_spec : forall lim g fuel path n k acc,
+  mock_path fuel g path n = Some k ->
+  ((acc + N.of_nat k <= lim)%N -> mock_cost fuel lim g path n acc = (acc + N.of_nat k)%N) /\
+  ((lim < acc + N.of_nat k)%N -> (lim < mock_cost fuel lim g path n acc)%N).
+Proof. exact mock_cost_spec. Qed.
+Print Assumptions C16_mock_cost_spec.
+
+(* refutation of "bounded time" for the tag: 25 message types, acyclic, and the walk is over the
+   budget of 2^15 assignments (it would emit 2^25 - 2); depth 10 is within it *)
+Example C16_refuted_mock_acyclic_path_blowup :
+  wf_graph (dag2 24) /\ mock_over_budget (dag2 24) 0 = true /\ mock_over_budget (dag2 10) 0 = false /\
+  predict_C16b (dag2 24, [0], true) =
+    JObj [(s "tags", JArr [JStr (s "mock-acyclic-path-blowup")]); (s "mock_failure", JStr (s "budget"));
+          (s "mock_walk_terminates", JBool false)].
+Proof.
+  split; [exact (dag2_wf 24)|]. split; [vm_compute; reflexivity|]. split; vm_compute; reflexivity.
+Qed.
